@@ -56,6 +56,19 @@ CHECKS = {
         "assumptions": ["golang.org/x/crypto keyring is the requester's agent", "the CA double issues certificates valid for exactly the requested validity"],
         "subchecks": [R("TestC03Provision", 200, 1000, qs=2)],
     },
+    "C04": {
+        "pkg": "c04", "level": "fault_enumeration",
+        "manifest": {
+            "text": "for each scenario a fault-free run fixes the agent-operation and CA-call counts; then every single fault (failure reply / connection loss at every agent operation index, error / panic at every CA call, panic in every handler method) is injected in a fresh world and the returned error kind is compared with a phase model; a fixed grid of 20 scenarios is enumerated completely and further scenarios are generated",
+            "note": "single faults only; handlers return typed errors as the code asks of them (an untyped Generate error passes through Run unchanged: handler contract, not judged); whether Name() runs is not part of the property",
+            "technique": "exhaustive single-fault enumeration inside generated scenarios (rapid); oracle = phase model of error kinds + subset invariant",
+        },
+        "assumptions": ["the sequence of agent operations of a scenario is the same in the dry run and in the fault runs (keys differ, shape does not)"],
+        "subchecks": [
+            E("TestC04AllScenarios"),
+            R("TestC04Faults", 15, 100, qs=2),
+        ],
+    },
     "C05": {
         "pkg": "c05", "level": "exploration",
         "manifest": {
